@@ -70,8 +70,13 @@ def oracle(chk, world, r, case):
             allowed = set([who]) | set(world.regpoints(who)) if who is not None else set()
             if t not in allowed:
                 chk.failure("exception %s raised by %s is recorded against %s (allowed: %s)" % (name, who, t if t is not None else dr.get_name(target), sorted(allowed)), case)
-            if not b.tracebacks.get(ex):
+            tb = b.tracebacks.get(ex)
+            if not tb:
                 chk.failure("exception %s against %s has no traceback" % (name, t), case)
+            elif not (isinstance(tb, str) and "Traceback (most recent call last)" in tb and type(ex).__name__ in tb):
+                # "with a traceback" means the text of the traceback of THIS exception, not any non-empty string
+                chk.failure("exception %s against %s is recorded with %r, which is not the traceback of a %s"
+                            % (name, t, tb[:120], type(ex).__name__), case)
             if name == "skip" or (name == "content" and spec[who]["kind"] == "plain"):
                 if not ss:
                     chk.failure("a deliberate skip of %s was recorded although skip recording is off" % who, case)
